@@ -229,6 +229,9 @@ def ensure_deps():
         stdout=subprocess.DEVNULL,
         stderr=subprocess.DEVNULL,
     )
+    # a path entry that did not exist when it was first tried is cached as "no finder"
+    sys.path_importer_cache.pop(DEPS, None)
+    importlib.invalidate_caches()
 
 
 def load_known():
